@@ -50,8 +50,15 @@ def jobs(tier):
     # deep states reached by concrete prefixes, then a symbolic suffix
     for prefix, ac in (("stable", False), ("stable-hb", False), ("stable-commit-hb", True), ("rejoin-with-hb-pending", True)):
         out.append({"K": 5 if q else 6, "faults": 2, "leader": False, "stop": False, "prefix": prefix, "autocommit": ac})
+    out.append({"kind": "leader", "generations": 2 if q else 3, "topic_error": True})
     return out
 
 
 def scenario(job):
+    if job.get("kind") == "leader":
+        # the leader's partition lookup on the real client (metadata path down to the bytes, simulated brokers), with a
+        # transient topic-level error on one of the topics: the member must still get to its SyncGroup
+        from harness.aux_c15_leader import scenario as leader
+
+        return leader(job)
     return make_scenario(job, {"progress"})
